@@ -66,14 +66,64 @@ def adapter_cases(res, tier, seed, have_drv):
     res.cov["evaluations"] = res.cov.get("evaluations", 0) + n
 
 
+def spec_unwrap(q, a):
+    """C16 "…or unwrapped": a Generic taken out of its composite source and unwrapped while registered has left the poller"""
+    w = q.split()
+    leaves, ops = w[1], (w[2].split(",") if len(w) > 2 else [])
+    stages = a.split()[0].split(";")
+    active = [True] * len(leaves)
+    for n, op in enumerate(ops):
+        if n + 1 >= len(stages):
+            break
+        if op == "retire":
+            i = next((j for j in range(len(leaves)) if active[j]), None)
+            if i is not None:
+                active[i] = False
+        if op == "unwrap":
+            i = next((j for j in range(len(leaves)) if active[j] and leaves[j] == "g"), None)
+            if i is not None:
+                active[i] = False
+                if stages[n + 1].split(",")[i] != "-":
+                    return ("composite %s: leaf %d (a Generic) was taken out and unwrapped, but its fd is still registered with the poller "
+                            "(sub-id %s)" % (leaves, i, stages[n + 1].split(",")[i]))
+    return None
+
+
+def unwrap_cases(res, tier, seed, have_drv):
+    import os
+    import common as C
+    from props import c20
+    lines = [l for l in c20.gen_cases("quick", seed) if l.startswith("composite ") and "unwrap" in l]
+    impl, model = c20.run_both(lines, have_drv)
+    for i, (q, a) in enumerate(zip(lines, impl)):
+        v = spec_unwrap(q, a)
+        if v:
+            res.cov["impl_monitor_failures"] += 1
+            if len(res.violations) < 3:
+                d = C.write_replay(res.pid, {"case.tok": q + "\n", "impl.obs": a + "\n", "verdict.txt": v + "\n"})
+                res.violations.append(("C16 on a real composite source: %s   [%s]" % (v, q), os.path.join(d, "case.tok")))
+        elif model is not None and model[i] != a and not res.broken:
+            res.broken.append("correspondence (composite sources): `%s`: impl `%s` vs model `%s`" % (q, a, model[i]))
+    res.cov["unwrap_cases"] = len(lines)
+    res.cov["evaluations"] = res.cov.get("evaluations", 0) + len(lines)
+
+
 def run(res, tier, seed, search=False, have_drv=True):
     coreprop.run_property(res, PID, PROFILES, tier, seed, search, have_drv)
     adapter_cases(res, tier, seed, have_drv)
+    unwrap_cases(res, tier, seed, have_drv)
     if res.violations:
         res.broken = []
 
 
 def replay(path):
+    if path.endswith(".tok"):
+        from props import c20
+        q = open(path).read().strip()
+        impl, _ = c20.run_both([q], False)
+        v = spec_unwrap(q, impl[0])
+        print(impl[0]); print("C16:", v)
+        return 1 if v else 0
     case = [l.rstrip("\n") for l in open(path) if l.strip()]
     if len(case) > 1 and case[1].startswith("mode "):
         from props import c17
